@@ -36,5 +36,21 @@ Theorem it_order_and_duplicates_do_not_matter :
   forall c, R0 <= c < N0 -> known s1 c = known s2 c.
 Proof. exact it_order_independent. Qed.
 
+(* The models identify a symbol by its matrix column (sources: columns r .. n-1, repairs: 0 .. r-1); the API speaks ESIs.
+   That this convention is the library's is not assumed: gen/GenSymbol.v is regenerated on every run from the macros of
+   of_symbol.h (tools/gen_params.py), and SymbolTie.v proves the generated functions equal to the models' conversions. *)
+From Coq Require Import ZArith.
+From OFV Require Import CSem ITRun SymbolTie.
+From OFV.gen Require Import GenSymbol.
+Theorem the_library_s_esi_to_column_macro_is_col_of : forall k r esi : nat, (Z.of_nat k + Z.of_nat r < 2147483648)%Z -> esi < k + r ->
+  get_symbol_col (Z.of_nat esi) (Z.of_nat r) (Z.of_nat k) = Some (Z.of_nat (col_of k r esi)).
+Proof. exact get_symbol_col_is_col_of. Qed.
+Theorem the_library_s_column_to_esi_macro_is_esi_of : forall k r col : nat, (Z.of_nat k + Z.of_nat r < 2147483648)%Z -> col < k + r ->
+  get_symbol_esi (Z.of_nat col) (Z.of_nat r) (Z.of_nat k) = Some (Z.of_nat (esi_of k r col)).
+Proof. exact get_symbol_esi_is_esi_of. Qed.
+Theorem esi_and_column_conversions_are_inverse : forall k r esi, esi < k + r -> esi_of k r (col_of k r esi) = esi /\ col_of k r esi < k + r.
+Proof. exact col_esi_inverse. Qed.
+
+Print Assumptions the_library_s_esi_to_column_macro_is_col_of.
 Print Assumptions it_is_peeling_closure.
 Print Assumptions it_order_and_duplicates_do_not_matter.
